@@ -15,13 +15,33 @@ func (c *VC) mapModelled(t types.Type) (*types.Map, bool) {
 		return nil, false
 	}
 	if _, _, isInt := intInfo(m.Key()); !isInt {
-		return nil, false
+		// string keys: the key is an uninterpreted function of the string value (strkey), so two
+		// syntactically different string terms may or may not be the same key - an over-approximation
+		if b, isB := m.Key().Underlying().(*types.Basic); !isB || b.Info()&types.IsString == 0 {
+			return nil, false
+		}
 	}
 	return m, true
 }
 
+// mapKeySort: the SMT sort of the keys (strings are mapped to integers by strkey).
+func (c *VC) mapKeySort(m *types.Map) *Sort {
+	if b, ok := m.Key().Underlying().(*types.Basic); ok && b.Info()&types.IsString != 0 {
+		return sortInt
+	}
+	return c.sortOf(m.Key())
+}
+
+// mapKey converts an evaluated key expression to the key sort.
+func (c *VC) mapKey(m *types.Map, k *Term) *Term {
+	if b, ok := m.Key().Underlying().(*types.Basic); ok && b.Info()&types.IsString != 0 {
+		return c.uf("strkey", sortInt, k)
+	}
+	return k
+}
+
 func (c *VC) mapDomHeap(st *State, m *types.Map) (string, *Term) {
-	ks := c.sortOf(m.Key())
+	ks := c.mapKeySort(m)
 	n := "HMd_" + sanitize(ks.Name)
 	if h, ok := st.heaps[n]; ok {
 		return n, h
@@ -30,7 +50,7 @@ func (c *VC) mapDomHeap(st *State, m *types.Map) (string, *Term) {
 }
 
 func (c *VC) mapValHeap(st *State, m *types.Map) (string, *Term) {
-	ks, vs := c.sortOf(m.Key()), c.sortOf(m.Elem())
+	ks, vs := c.mapKeySort(m), c.sortOf(m.Elem())
 	n := "HMv_" + sanitize(ks.Name) + "_" + sanitize(vs.Name)
 	if h, ok := st.heaps[n]; ok {
 		return n, h
@@ -48,6 +68,11 @@ func (c *VC) mapRead(st *State, m *types.Map, h, k *Term) (v, ok *Term) {
 
 func (c *VC) mapWrite(st *State, m *types.Map, h, k, v *Term, pos token.Pos, text string) {
 	c.panicObl(st, "nil-map", text, pos, mkNot(mkEq(h, intLit64(0))))
+	if c.monotoneMapStore && v.Sort == sortBool {
+		// `monotone-map x`: an entry of the boolean map x that is true stays true
+		old, _ := c.mapRead(st, m, h, k)
+		c.addObl("own/monotone-map", text+": a true entry is not lowered", pos, st.pc, mkImplies(old, v))
+	}
 	dn, dom := c.mapDomHeap(st, m)
 	vn, val := c.mapValHeap(st, m)
 	c.checkWrite(st, dn, h, nil, nil, pos, text)
@@ -69,7 +94,7 @@ func (c *VC) mapMake(st *State, m *types.Map) *Term {
 	h := st.alloc
 	st.alloc = c.name("alloc", mk("+", sortInt, st.alloc, intLit64(1)))
 	dn, dom := c.mapDomHeap(st, m)
-	rs := arraySort(c.sortOf(m.Key()), sortBool)
+	rs := arraySort(c.mapKeySort(m), sortBool)
 	st.heaps[dn] = c.name(dn, mkStore(dom, h, mk(fmt.Sprintf("(as const %s)", rs.Name), rs, tFalse)))
 	return h
 }
@@ -77,7 +102,7 @@ func (c *VC) mapMake(st *State, m *types.Map) *Term {
 // mapLen: cardinality of the domain as an uninterpreted function of the domain row (0 for nil).
 func (c *VC) mapLen(st *State, m *types.Map, h *Term) *Term {
 	_, dom := c.mapDomHeap(st, m)
-	card := c.uf("card_"+sanitize(c.sortOf(m.Key()).Name), c.idxSort(), c.sel(dom, h))
+	card := c.uf("card_"+sanitize(c.mapKeySort(m).Name), c.idxSort(), c.sel(dom, h))
 	it := types.Typ[types.Int]
 	c.addFact(tTrue, mkAnd(c.cmp(token.GEQ, card, c.idxLit(0), it), c.cmp(token.LEQ, card, c.numLit(pow2(maxLenBits), it), it)))
 	return mkIte(mkEq(h, intLit64(0)), c.idxLit(0), card)
